@@ -1,7 +1,7 @@
 /-
 Memory footprint of the VM, generic in the memory model: every opcode handler, `step`,
-CHECKPREDICATE and `run` change the memory only through `fresh` and `append`.  Stated for an
-arbitrary preorder `R` on memories that contains the `fresh` and `append` steps.
+CHECKPREDICATE and `run` change the memory only through `fresh`.  Stated for an
+arbitrary preorder `R` on memories that contains the `fresh` steps.
 -/
 import BytomModel.Lemmas.VMGas
 namespace BytomModel.VM
@@ -12,7 +12,6 @@ structure MemRel {μ ι : Type} (M : MemOps μ ι) (R : μ → μ → Prop) : Pr
   refl : ∀ m, R m m
   trans : ∀ a b c, R a b → R b c → R a c
   fresh : ∀ m b e, R m (M.fresh m b e).1
-  append : ∀ m a b, R m (M.append m a b).1
 
 section
 variable {μ ι : Type} {M : MemOps μ ι} {R : μ → μ → Prop} (H : MemRel M R)
@@ -78,8 +77,6 @@ theorem MemR_top : MemR R (top : OpM (St μ ι) ι) :=
   MemR_same H _ (by intro s; unfold top; split <;> simp)
 theorem MemR_allocBytes (b : Bytes) (e : Nat) : MemR R (allocBytes M b e) := by
   constructor; intro s; simp; exact H.fresh _ _ _
-theorem MemR_appendItem (a : ι) (b : Bytes) : MemR R (appendItem M a b) := by
-  constructor; intro s; simp; exact H.append _ _ _
 
 omit H in
 theorem MemR_ite {α : Type} (c : Prop) [Decidable c] (x y : OpM (St μ ι) α)
@@ -105,7 +102,6 @@ macro_rules
       | apply MemR_pop $H
       | apply MemR_top $H
       | apply MemR_allocBytes $H
-      | apply MemR_appendItem $H
       | apply MemR_ite
       | intro _
       | split))
@@ -168,8 +164,7 @@ macro_rules
         | apply MemR_pop $H
         | apply MemR_top $H
         | apply MemR_allocBytes $H
-        | apply MemR_appendItem $H
-        | apply MemR_ite
+          | apply MemR_ite
         | intro _
         | split)))
 
